@@ -162,11 +162,13 @@ func VH_C06_O5_big_buffers() {
 	before := zzverif.PoolPuts()
 	e.Msg("m")
 	zzverif.Assert(!zzverif.Symbolic() || zzverif.PoolPuts() == before, "O5: an event whose buffer grew beyond 64 KiB is not returned to the pool")
+	zzverif.Assert(!vInEventPool(e), "O5: an event whose buffer capacity exceeds 64 KiB is not in the pool afterwards")
 	e2 := l.Info()
 	e2.buf = append(make([]byte, 0, 1<<16), e2.buf...)
 	before = zzverif.PoolPuts()
 	e2.Msg("m")
 	zzverif.Assert(!zzverif.Symbolic() || zzverif.PoolPuts() == before+1, "O5: a buffer of exactly 64 KiB is still pooled")
+	zzverif.Assert(vInEventPool(e2), "O5: an event with a buffer of exactly 64 KiB is pooled again")
 	a := Arr()
 	a.buf = make([]byte, 0, 1<<16+1)
 	before = zzverif.PoolPuts()
